@@ -35,6 +35,11 @@ STRS = [
     "\U0001F600 non-BMP \U0001D518", "1.0", "1e3", "-0", "None", "True", "NaN", "[]", "{}", "\"q\"", "\\",
     "L" * 3000,
     # format-hostile text (anything that is logged, %-formatted, str.format-ed or embedded)
+    # text that looks like the syntax being produced or parsed (JSON, SSE, Python reprs)
+    "NaN", "[NaN]", ":Infinity,", "values=[1.0, NaN]", "data: x", "event: message", "id: 1", "retry: 5", ": comment",
+    "{\"a\": 1}", "[1, 2]", "\"quoted\"", "null,", "}\n{", "\\u0000", "<class 'str'>",
+    # BOM, NFC / NFD twins, case twins
+    "\ufeffbom", "\ufeff", "\u00e9", "e\u0301", "Content-Type", "content-type", "\u212a",
     "%", "%s %d", "%(x)s", "{}", "{0}", "{x}", "}{", "\u2029", "\u0085", "'", "\"", "\\n", "${HOME}", "\x00", "\x7f",
 ]
 # strings whose ends (or whole content) a "tolerant" validator would alter
@@ -48,7 +53,7 @@ TWINS = {"str": ["7", "7.0", "true", "0", "False", "None"], "int": [7, 7.0, 1, 1
          "bool": [True, False], "any": [7, "7", 7.0, True, 1, "1", 0, False, "", None, [None], {"k": None}]}
 FLOATS = [0.5, 0.25, 1.5, -2.75, 1e-3, 3.0, 1.0, 0.0, 0, 1, 7, 1e100, 2.5e-7]
 EXTRA_NAMES = ["x", "extra", "note", "_custom", "X-Y", "data2", "annotations2", "kind", "self", " pad ", "tab\t", "", "\U0001F600"]
-ANY_KEYS = ["a", "b", "type", "text", "meta", "_meta", "schema", "schema_", "progressToken", "n", " k ", "", "nl\n"]
+ANY_KEYS = ["a", "b", "type", "text", "meta", "_meta", "schema", "schema_", "progressToken", "n", " k ", "", "nl\n", "data:", "{\"k\"}", "NaN", "a.b", "0", "\u00e9", "e\u0301", "\ufeffa", "A", "a"]
 
 
 # ---------------------------------------------------------------------------- constants from the source
@@ -289,6 +294,8 @@ class Gen:
         for f in c["fields"]:
             if f["name"] in opt_names:
                 inc = (f["name"] in present) if present is not None else (rng.random() < (0.5 if depth < 3 else 0.2))
+                if getattr(self, "force_all", False) and depth < 4:
+                    inc = True  # every optional member at every nesting level
                 if not inc:
                     continue
             out[self.wire(f)] = self.field_value(cid, f, rng, depth, extras)
